@@ -48,7 +48,7 @@ def histories(rnd, count, nops, types):
                     ar = rnd.choice(t['areas'])
                     sc.append('corrupt %d %d' % (rnd.randint(ar[0], ar[0] + ar[1] - 1), rnd.choice([0, 1, 0xFFFF, 0x7F80, 0x7FF0, rnd.randint(0, 0xFFFF)])))
                 sc.append('sanitise')
-        yield sc
+        yield rebased(sc, rnd, 0.3)
 
 
 def run(tier):
